@@ -26,7 +26,7 @@ Task: make a small, realistic change to the library's non-test Go source in {wt}
   1. the library still compiles and the ENTIRE existing test suite still passes (run it and confirm; do not edit, delete or skip existing tests);
   2. the property above is violated for some inputs;
   3. the violation needs something specific to manifest - e.g. an unusual input (particular byte values, lengths, key shapes, option combination, number of keys/nodes crossing an internal threshold), a multi-step sequence of operations, a particular interleaving, a fault at a particular point, or two cooperating sites that each look fine alone. A change that ordinary use would expose at once (e.g. every lookup fails) is NOT wanted.
-Prefer changes located in the files most relevant to the property: {files}. Read the code carefully first to find a subtle spot. {extra}
+Prefer changes located in the files most relevant to the property: {files}. Read the code carefully first to find a subtle spot. {extra}{used}
 
 Deliverables, all under {out}/ (create it):
   - patch.diff : output of `git -C {wt} diff` for your change (library source only, no test files in it);
@@ -37,8 +37,22 @@ extras = {
  'C06': 'Note: legacy byte streams of old versions are in trie/testdata/ (fixtures for nine ASCII key sets); a good mutation breaks loading of legacy data for key shapes NOT covered by those fixtures (for the demo you may have to construct a legacy stream by hand, e.g. with the array package types as the old versions did: three sections children(array.Array32)/steps(array.U16)/leaves(array.Array), each written with pbcmpl.Marshal; or the 0.5.10 layout).',
  'C11': 'A good mutation introduces shared mutable state touched by a read path (a cache, a reused buffer, a lazily computed field) so that concurrent readers can interfere; the demo may use the race detector (go test -race works offline here) or a deterministic interleaving.',
 }
+import glob, os
 pid, variant = sys.argv[1], sys.argv[2]
+# descriptions of EARLIER seeded mutations of this property (what each needed to manifest) - they say nothing
+# about the verification machinery; they only keep a new agent from repeating an idea
+def used_ideas(pid):
+    out = []
+    for d in sorted(glob.glob('/verif/seeded/%s-*' % pid)):
+        try:
+            out.append(json.load(open(os.path.join(d, 'meta.json')))['needs_to_manifest'])
+        except Exception:
+            pass
+    if not out:
+        return ''
+    return ('\n\nEarlier mutations written for this property already used the ideas below. Yours must be of a DIFFERENT kind: a different code site AND a different triggering condition (do not vary one of these):\n'
+            + ''.join('  - %s\n' % x for x in out))
 wt = sys.argv[3] if len(sys.argv) > 3 else f'/tmp/wt/{pid}{variant}'
 p = props[pid]
 print(T.format(wt=wt, out=f'/tmp/seed/{pid}-{variant}', title=p['title'], statement=p['statement'],
-               quant=p['quantifier']['text'], files=', '.join(p['anchors']['files']), extra=extras.get(pid, '')))
+               quant=p['quantifier']['text'], files=', '.join(p['anchors']['files']), extra=extras.get(pid, ''), used=used_ideas(pid)))
